@@ -19,6 +19,12 @@ Proof. intros Hq; split; intros H; nia. Qed.
 Lemma div_unique_sandwich (p q r : N) : 0 < q -> r * q <= p -> p < (r + 1) * q -> p / q = r.
 Proof. intros Hq H1 H2. nia. Qed.
 
+Lemma le_mul_pos_l (P q : N) : q <> 0 -> P <= q * P.
+Proof. intros Hq. nia. Qed.
+
+Lemma div_le_self (p q : N) : p / q <= p.
+Proof. destruct (N.eq_dec q 0) as [->|Hq]; [destruct p; cbn; lia|]. apply N.div_le_upper_bound; [exact Hq|]. now apply le_mul_pos_l. Qed.
+
 Lemma mul_lt_W256 (a b : N) : a < W128 -> b < W128 -> a * b < W256.
 Proof. intros Ha Hb. rewrite <- W128_sq. nia. Qed.
 
